@@ -10,7 +10,8 @@ From TS Require Import Model.Str Model.Outcome Model.Unicode Model.Syntax Model.
                        Model.Lang.Common Model.Lang.Decl Model.Lang.Python Model.Lang.TypeScript Model.MultiFile.
 From TS Require Model.Writer.
 From TS Require Import Spec.C01Spec.
-From TS Require Import Proofs.C01 Proofs.C14Witness Proofs.C12Multi Proofs.C12MultiTS Proofs.C12MultiWitness Proofs.MultiSameDecls.
+From TS Require Import Model.Lang.Swift Model.Lang.Go.
+From TS Require Import Proofs.C01 Proofs.C14Witness Proofs.C12Multi Proofs.C12MultiTS Proofs.C12MultiSwift Proofs.C12MultiGo Proofs.C12MultiWitness Proofs.MultiSameDecls.
 Import ListNotations.
 Local Open Scope string_scope.
 Local Open Scope list_scope.
@@ -37,4 +38,27 @@ Example multi_same_decls_python_nonvacuous :
 Proof.
   do 8 eexists. split; [vm_compute; reflexivity|].
   repeat (split; [vm_compute; reflexivity|]). vm_compute; reflexivity.
+Qed.
+
+(* the same for the three other stateful back ends (workspaces of Proofs/C12MultiWitness.v): crate beta's declarations
+   from the state crate alpha left - TypeScript: Date registered for the member `at`; Swift: the CodableVoid flag set;
+   Go: time imported - are its declarations from the initial state; the states reached differ *)
+Example multi_same_decls_ts_sw_go_nonvacuous :
+  (exists pa pb dsa dsb,
+     y_plan TypeScript ws_py_plain = Some [pa; pb] /\
+     ts_multi_decls uc_exec y_ts_cfg [] (op_data pa) = Ok (dsa, [(lit "Date", [lit "at"])]) /\
+     ts_multi_decls uc_exec y_ts_cfg [(lit "Date", [lit "at"])] (op_data pb) = Ok (dsb, [(lit "Date", [lit "at"])]) /\
+     ts_multi_decls uc_exec y_ts_cfg [] (op_data pb) = Ok (dsb, []) /\ List.length dsb = 1%nat) /\
+  (exists pa pb dsa dsb,
+     y_plan Swift ws_sw_unit = Some [pa; pb] /\
+     sw_multi_decls uc_exec y_sw_cfg false (op_data pa) = Ok (dsa, true) /\
+     sw_multi_decls uc_exec y_sw_cfg true (op_data pb) = Ok (dsb, true) /\
+     sw_multi_decls uc_exec y_sw_cfg false (op_data pb) = Ok (dsb, false) /\ List.length dsb = 1%nat) /\
+  (exists pa pb dsa dsb,
+     y_plan Go ws_py_plain = Some [pa; pb] /\
+     go_multi_decls uc_exec y_go_cfg [] (op_data pa) = Ok (dsa, [lit "encoding/json"; lit "time"]) /\
+     go_multi_decls uc_exec y_go_cfg [lit "encoding/json"; lit "time"] (op_data pb) = Ok (dsb, [lit "encoding/json"; lit "time"]) /\
+     go_multi_decls uc_exec y_go_cfg [] (op_data pb) = Ok (dsb, [lit "encoding/json"]) /\ List.length dsb = 1%nat).
+Proof.
+  split; [|split]; (do 4 eexists; split; [vm_compute; reflexivity|]; repeat (split; [vm_compute; reflexivity|]); vm_compute; reflexivity).
 Qed.
